@@ -198,3 +198,16 @@ package crdt
 //@ func NewRoot
 //@   modifies nothing
 //@   ensures result.Created != nil && fresh(result.Created) && *result.Created == when && len(result.MergeSources) == 0 && result.MergeMode == 0
+
+// The per-entry decoder of the non-registered-types marshalers (JSON nodes):
+// the three bookkeeping fields of a stored entry — modification time, tombstone
+// stamp (C17: a stored tombstone stays a tombstone), predecessor version — are
+// taken over unchanged, whatever the value part holds.
+//@ func Config.Unmarshal
+//@   trusted
+//@   modifies all
+//@ func unmarshal
+//@   requires (cfg.Unmarshal != nil || !cfg.UnmarshalerUsesRegisteredTypes) && imp(typeis(i, *crdt.Value), i.(*crdt.Value) != nil)
+//@   modifies all
+//@   unchecked nil@call:funcvalue   // ucb is cfg.Unmarshal or json.Unmarshal: never nil (a function constant is not a nil value)
+//@   ensures-local bookkeeping-fields-taken-over: imp(result == nil && typeis(i, *crdt.Value) && !cfg.UnmarshalerUsesRegisteredTypes, cv.ModEpochNanos == jv.ModEpochNanos && cv.TombstoneSinceEpochNanos == jv.TombstoneSinceEpochNanos && cv.PreviousRoot == jv.PreviousRoot)
